@@ -24,7 +24,7 @@ MECHANISMS = ["jaxley.modules.base:Module.set_ncomp", "jaxley.utils.cell_utils:b
               "jaxley.modules.cell:Cell._init_morph_jax_spsolve", "jaxley.modules.base:Module.add_to_group"]
 MECHANISMS_REQUIRED = MECHANISMS[:4]
 REQUIRED = {"quick": {"branch_invariants": 40, "direct_equiv": 60, "groups_kept": 30, "swc_profile": 10},
-            "thorough": {"branch_invariants": 200, "direct_equiv": 300, "groups_kept": 150, "swc_profile": 50}}
+            "thorough": {"branch_invariants": 376, "direct_equiv": 1020, "groups_kept": 307, "swc_profile": 119}}
 WALL_BUDGET = {"quick": 1500, "thorough": 4 * 3600}
 
 
